@@ -1,6 +1,7 @@
 """C14 An interrupted encode leaves a file whose complete frames are all decodable.
 
 Decided:
+  C14.gram    reader and writer of the blocks of the provisional header (incl. placeholder seek points) agree field by field
   C14.append  nothing reachable from Encoder::encode (hence from the writers' write methods) seeks; the only seek in the
               encoder is the header rewrite in finalize_inner, so frames are appended strictly sequentially
   C14.header  Encoder::new returns Ok only after the provisional metadata blocks were written successfully, and
@@ -24,6 +25,10 @@ def run(ctx, rep):
     cg = ctx.cg()
     ok = OkImplies(F, cg)
     ok.some_only = True
+    # ---- C14.gram: the provisional header of an interrupted file (STREAMINFO, placeholder SEEKTABLE, PADDING and the
+    # options' own blocks) must parse back: reader and writer of those blocks use the same bit-field sequences
+    from rules import gramlib
+    gramlib.grammar_agreement(ctx, rep, "C14", "metadata::", 4, only=r"Streaminfo|SeekPoint|SeekTable|Padding|BlockHeader|BlockSize")
     # ---- C14.append
     roots = [b.key for b in F.bodies if b.promoted is None and strip_generics(b.path) in ("encode::Encoder::encode", "encode::encode_frame", "encode::FlacStreamWriter::write")]
     rep.floor("C14.append", "emission roots", len(roots), 3)
